@@ -189,7 +189,16 @@ FIXED += [
       "free_text": "program p\ngoto 12\n12 continue\nx = 1\nend\n"}),
 ]
 
+FIXED += [
+    ("C01", "rejected:bind", "c681d67", "'bind(c) x, y' (BIND statement without the optional '::') was rejected: the language-binding-spec was cut before its closing parenthesis",
+     {"mode": "source", "std": "f2003", "ic": True, "text": "module m\n  bind(c) x, /blk/\n  bind(c, name = 'q') y\nend module m\n"}),
+    ("C01", "rejected:format", "bc9bf99", "'format (-1p e12.4)': a signed scale factor directly in front of a data edit descriptor was rejected",
+     {"mode": "source", "std": "f2003", "ic": True, "text": "subroutine s\n10 format (-1p e12.4, +2p f8.3)\nend subroutine s\n"}),
+]
+
 OPEN = [
+    ("C01", "format-c1002-node-not-reproduced", "a scale factor directly followed by a data edit descriptor ('1p e12.4') is held in a Format_Item_C1002 node but printed with a comma ('1P, E12.4'), so the re-parsed tree has two list items instead: the tree is not structurally identical after the round trip (the comma is asserted by test_format_specification_r1002.py)",
+     {"mode": "source", "std": "f2003", "ic": True, "text": "subroutine s\n10 format (1p e12.4, i3)\nend subroutine s\n"}),
     ("C03", "defined-binary-op-with-dotted-right", "a defined binary operator with a dotted operator or logical literal to its right at the same parenthesis level is not parsed (Expr.match splits at the right-most .word. and gives up if that one is intrinsic)",
      {"mode": "expr", "text": "a .x. b .and. c", "expected": "(a.x.(b.and.c))", "context": "expr", "known": True}),
     ("C03", "operator-like-name-between-dotted-operators", "an operand named like the word of a dotted operator (ge, or, eq, ...) with a dotted operator on each side is rejected: '. ge .' inside '.neg. ge .lt. x' is taken for the operator .GE. (patterns allow blanks inside dotted operators)",
